@@ -673,6 +673,7 @@ func TestC19Accounts(t *testing.T) {
 type c19Pkt struct {
 	K      string `json:"k"` // sub pub unsub pubrel puback disconnect auth ping garbage connect
 	QoS    byte   `json:"q,omitempty"`
+	NR     bool   `json:"nr,omitempty"` // pub: RETAIN not set (default: retained)
 	Filter string `json:"f,omitempty"`
 	G      string `json:"g,omitempty"` // garbage kind
 }
@@ -724,6 +725,7 @@ func genC19Pre(t *rapid.T) c19PreScen {
 		switch k {
 		case "pub":
 			p.QoS = byte(rapid.IntRange(0, 1).Draw(t, "qos"))
+			p.NR = rapid.IntRange(0, 3).Draw(t, "not_retained") == 0
 		case "sub":
 			p.QoS = byte(rapid.IntRange(0, 2).Draw(t, "qos"))
 			p.Filter = rapid.SampledFrom([]string{"v/#", "#", "$vs/bystander"}).Draw(t, "filter")
@@ -940,7 +942,7 @@ func runC19Pre(s c19PreScen, c *ev.Case) *ev.Violation {
 			enc(&mw.Packet{Type: mw.SUBSCRIBE, PacketID: uint16(i + 1), Subs: []mw.SubReq{{Filter: p.Filter, QoS: p.QoS}}})
 			stateChanging = true
 		case "pub":
-			enc(&mw.Packet{Type: mw.PUBLISH, Topic: "v/r", Retain: true, QoS: p.QoS, PacketID: uint16(i + 1), Payload: []byte("ROGUE")})
+			enc(&mw.Packet{Type: mw.PUBLISH, Topic: "v/r", Retain: !p.NR, QoS: p.QoS, PacketID: uint16(i + 1), Payload: []byte("ROGUE")})
 			stateChanging = true
 		case "unsub":
 			enc(&mw.Packet{Type: mw.UNSUBSCRIBE, PacketID: uint16(i + 1), Filters: []string{p.Filter}})
